@@ -162,7 +162,7 @@ func (c *cancelCtx) propagate(s *Sched, t *Task) {
 	// standard library starts a goroutine here
 	pv := Wrap(done)
 	cv := Wrap(c.done)
-	s.spawn(t, "ctx-propagate", true, func() {
+	pt := s.spawn(t, "ctx-propagate", true, func() {
 		pr := &RecvC[struct{}]{C: pv}
 		cr := &RecvC[struct{}]{C: cv}
 		if Select(false, pr, cr) == 0 {
@@ -171,6 +171,7 @@ func (c *cancelCtx) propagate(s *Sched, t *Task) {
 			c.cancel(false, pc.err, &me.st)
 		}
 	})
+	pt.Free = true
 }
 
 // WithCancel replaces context.WithCancel.
@@ -285,6 +286,7 @@ func WithDeadline(parent context.Context, d time.Time) (context.Context, context
 			}
 		})
 		c.timerTask.timer = true
+		c.timerTask.Free = true
 	}
 	return c, func() { c.userCancel(context.Canceled) }
 }
